@@ -235,6 +235,9 @@ func c15Run(r *zsim.Run) {
 		return
 	}
 	nsteps := 4 + o.Intn(14)
+	if r.Tier == "thorough" && o.Intn(4) == 0 {
+		nsteps = 30 + o.Intn(50) // the thorough tier also draws longer histories
+	}
 	for i := 0; i < nsteps && !r.Failed(); i++ {
 		before := make([]int, len(subs))
 		for j, s := range subs {
